@@ -42,6 +42,10 @@ type Ctx struct {
 	Cov      *Coverage
 	Assume   []string
 	Level    string
+	// Stuck: workers that had to be stopped long after the deadline. If the run found violations they are reported (the
+	// stuck worker is most likely another face of the same defect); if it found none, the run is a harness error.
+	Stuck   []string
+	stuckMu sync.Mutex
 }
 
 func (c *Ctx) Thorough() bool { return c.Tier == "thorough" }
@@ -361,7 +365,10 @@ func Collect(ctx *Ctx, outs []JobOutcome, onDeath func(o JobOutcome) *Violation)
 					continue
 				}
 			}
-			Harnessf("%s (a worker that does not wind down at the deadline is blocked: not counted as 'held')\nstderr: %s", o.Err, o.Stderr)
+			ctx.stuckMu.Lock()
+			ctx.Stuck = append(ctx.Stuck, fmt.Sprintf("%s (a worker that does not wind down at the deadline is blocked: not counted as 'held')\nstderr: %s", o.Err, o.Stderr))
+			ctx.stuckMu.Unlock()
+			continue
 		}
 		if o.Res == nil {
 			if onDeath != nil {
